@@ -103,6 +103,20 @@ def run(ctx):
         ps = [(g, c) for g in prog.family(ar) for c in g.calls if c.name == "push_str"]
         rep = any(any("replacement" in field_path(o.proj) for ff, o in ultimate_roots(prog, g, c.args[1], TRANSPARENT | {"next", "into_iter", "deref"})) for g, c in ps)
         ctx.ob("R1", "apply_rewrite inserts the accepted replacement", rep, "push_str of diff.replacement", where=ar.loc())
+    # the accept loop lets the FIRST of two overlapping edits win, and "first" is the order in which --json lists them (the scan's order).
+    # Re-sorting the per-file list of Diffs on the way to the accept loop (by end, by length, by rule) changes which of two same-start edits
+    # is first: -U then writes another edit than the announced one.
+    resort = []
+    for f in prog.fns.values():
+        if f.crate != "ast_grep":
+            continue
+        for c in f.calls:
+            if c.bb in f.live_blocks and c.name.startswith("sort") and c.args and c.args[0][0] != "k" and "print::Diff<" in f.locals[c.args[0][1][0]]:
+                resort.append(c)
+    ctx.ob("R1", "the per-file list of Diffs is not re-sorted on its way to the accept loop", not resort,
+           "no sort over a collection of print::Diff in the cli" if not resort else
+           "%s sorts the Diff list (%s): edits that start at the same byte change places relative to the order --json announces them in, and the accept loop keeps the first" % (resort[0].fn.id, resort[0].name),
+           where=resort[0].fn.loc(resort[0].line) if resort else None)
     splice_purity(ctx, "R1")
     # the accept filter's position (`end`) and everything else the printing thread remembers is per payload (C17 R7)
     from .c17 import consumer_state
